@@ -14,19 +14,19 @@ package try
 //@ func Of(f) result
 //@   prop C02
 //@   ensures !Panics(f()) ==> Eq(result, Success(f()))
-//@   ensures Panics(f()) ==> result.IsFailure()
+//@   ensures Panics(f()) ==> result.IsFailure() && func() bool { pe, ok := result.Failed().Get().(Panic); return ok && pe.Panic() != nil }()
 //@   ensures Calls(1)
 //
 //@ func Call(f) result
 //@   prop C02
 //@   ensures !Panics(verifspec.P2(f())) ==> Eq(result, Apply(f()))
-//@   ensures Panics(verifspec.P2(f())) ==> result.IsFailure()
+//@   ensures Panics(verifspec.P2(f())) ==> result.IsFailure() && func() bool { pe, ok := result.Failed().Get().(Panic); return ok && pe.Panic() != nil }()
 //@   ensures Calls(1)
 //
 //@ func CallUnit(f) result
 //@   prop C02
 //@   ensures !Panics(f()) ==> Eq(result, Apply(fp.Unit{}, f()))
-//@   ensures Panics(f()) ==> result.IsFailure()
+//@   ensures Panics(f()) ==> result.IsFailure() && func() bool { pe, ok := result.Failed().Get().(Panic); return ok && pe.Panic() != nil }()
 //@   ensures Calls(1)
 //
 // A normal return is never turned into a failure, and an error return is the
@@ -100,6 +100,14 @@ package try
 //@   prop C02
 //@   ensures ta.IsSuccess() ==> Eq(result, fba(bzero, ta.Get())) && Calls(1)
 //@   ensures ta.IsFailure() ==> Eq(result, bzero) && NoCalls()
+//
+// (The value on success, fab(ta.Get(), lazy.Done(bzero)), is not stated: the verifier does not
+// identify the two separately allocated lazy.Done closures passed to the uninterpreted fab.)
+//
+//@ func FoldRight(ta, bzero, fab) result
+//@   prop C02
+//@   ensures ta.IsSuccess() ==> Calls(1)
+//@   ensures ta.IsFailure() ==> Eq(result, lazy.Done(bzero)) && NoCalls()
 //
 //@ lemma composeOptionDef[A, B, C any](f1 func(A) fp.Option[B], f2 func(B) fp.Try[C], a A)
 //@   prop C02
